@@ -333,6 +333,10 @@ pub fn holdings_map(r: &TaxReport) -> BTreeMap<String, (Decimal, Decimal)> {
 /// Structural + numeric equality of two reports minus the echoed transactions (used by the
 /// metamorphic checks). Legs are grouped as in C01.
 pub fn reports_equivalent(a: &TaxReport, b: &TaxReport, obs: &mut Obs) -> Result<(), String> {
+    reports_equivalent_mode(a, b, obs, false)
+}
+
+pub fn reports_equivalent_mode(a: &TaxReport, b: &TaxReport, obs: &mut Obs, ignore_leg_gain: bool) -> Result<(), String> {
     if a.tax_years.len() != b.tax_years.len() {
         return Err(format!(
             "tax year count {} vs {}",
@@ -361,7 +365,7 @@ pub fn reports_equivalent(a: &TaxReport, b: &TaxReport, obs: &mut Obs) -> Result
             return Err(format!("{p} disposal count {} vs {}", ya.disposals.len(), yb.disposals.len()));
         }
         for (da, db) in ya.disposals.iter().zip(yb.disposals.iter()) {
-            disposals_equivalent(da, db, obs).map_err(|e| format!("{p}: {e}"))?;
+            disposals_equivalent_mode(da, db, obs, ignore_leg_gain).map_err(|e| format!("{p}: {e}"))?;
         }
     }
     let ha = holdings_map(a);
@@ -382,6 +386,12 @@ pub fn reports_equivalent(a: &TaxReport, b: &TaxReport, obs: &mut Obs) -> Result
 }
 
 pub fn disposals_equivalent(da: &Disposal, db: &Disposal, obs: &mut Obs) -> Result<(), String> {
+    disposals_equivalent_mode(da, db, obs, false)
+}
+
+/// With `ignore_leg_gain` the split of a disposal's gain over its legs is not compared (the
+/// disposal's total gain still is).
+pub fn disposals_equivalent_mode(da: &Disposal, db: &Disposal, obs: &mut Obs, ignore_leg_gain: bool) -> Result<(), String> {
     if da.date != db.date || da.ticker != db.ticker {
         return Err(format!("disposal {} {} vs {} {}", da.ticker, da.date, db.ticker, db.date));
     }
@@ -410,9 +420,14 @@ pub fn disposals_equivalent(da: &Disposal, db: &Disposal, obs: &mut Obs) -> Resu
         if !rat_close(c, c2, &tm, false, obs) {
             return Err(format!("{id} leg {k:?} cost {c} vs {c2}"));
         }
-        if !rat_close(g, g2, &tm, false, obs) {
+        if !ignore_leg_gain && !rat_close(g, g2, &tm, false, obs) {
             return Err(format!("{id} leg {k:?} gain {g} vs {g2}"));
         }
+    }
+    let ta: Rat = ga.values().map(|v| v.2.clone()).sum();
+    let tb: Rat = gb.values().map(|v| v.2.clone()).sum();
+    if !rat_close(&ta, &tb, &tm, false, obs) {
+        return Err(format!("{id} total gain {ta} vs {tb}"));
     }
     Ok(())
 }
@@ -420,4 +435,62 @@ pub fn disposals_equivalent(da: &Disposal, db: &Disposal, obs: &mut Obs) -> Resu
 /// Short description of a ledger for evidence samples.
 pub fn sample_of(ledger: &[Tx]) -> serde_json::Value {
     serde_json::Value::Array(led::dsl_lines(ledger).into_iter().map(serde_json::Value::String).collect())
+}
+
+
+/// F17 shape: some (date, security) has two SELL lines with different unit price or fees that are
+/// not on adjacent lines once the ledger is stably sorted by date (cgt-core then keeps them as
+/// separate sales, each apportioning its own price and fees over the legs it happens to get).
+pub fn has_nonadjacent_unequal_sells(ledger: &[Tx]) -> bool {
+    let mut idx: Vec<usize> = (0..ledger.len()).collect();
+    idx.sort_by(|&a, &b| ledger[a].date.cmp(&ledger[b].date).then(a.cmp(&b)));
+    let sorted: Vec<&Tx> = idx.iter().map(|&i| &ledger[i]).collect();
+    for (i, t) in sorted.iter().enumerate() {
+        let crate::led::Op::Sell { q, p, f } = &t.op else { continue };
+        let mut gap = false;
+        for u in sorted.iter().skip(i + 1) {
+            if u.date != t.date {
+                break;
+            }
+            match &u.op {
+                crate::led::Op::Sell { q: q2, p: p2, f: f2 } if u.ticker.eq_ignore_ascii_case(&t.ticker) => {
+                    let differs = p.a != p2.a || p.c != p2.c || (f.a * *q2) != (f2.a * *q) || f.c != f2.c;
+                    if gap && differs {
+                        return true;
+                    }
+                }
+                _ => gap = true,
+            }
+        }
+    }
+    false
+}
+
+pub enum Equiv {
+    Same,
+    /// equal except for how a disposal's gain is split over its legs, in the F17 shape
+    F17,
+    Different(String),
+}
+
+pub fn f17_verdict() -> crate::runner::Verdict {
+    crate::runner::Verdict::Known {
+        finding: "F17",
+        what: "same-day sales of one security on non-adjacent input lines are kept as separate sales, so the split of the day's proceeds, fees and gain over the disposal's legs depends on line order (disposal totals do not)".into(),
+    }
+}
+
+/// Compare two reports that must be equal under a reordering/regrouping of the same lines.
+pub fn equivalent_or_f17(a: &TaxReport, la: &[Tx], b: &TaxReport, lb: &[Tx], obs: &mut Obs) -> Equiv {
+    match reports_equivalent(a, b, obs) {
+        Ok(()) => Equiv::Same,
+        Err(e) => {
+            let mut scratch = Obs::default();
+            if (has_nonadjacent_unequal_sells(la) || has_nonadjacent_unequal_sells(lb)) && reports_equivalent_mode(a, b, &mut scratch, true).is_ok() {
+                Equiv::F17
+            } else {
+                Equiv::Different(e)
+            }
+        }
+    }
 }
